@@ -54,6 +54,9 @@ CLAIMS = {
  "C07": ("Differential testing against crypto/tls: ClientHellos produced by real TLS clients under generated configurations (and byte-level mutations that crypto/tls still accepts) are given both to the module's parser/matcher and to Go's TLS server, whose ClientHelloInfo is the reference for server name, ALPN, versions, cipher suites, curves, points and signature schemes, for sni/alpn routing verdicts and for the placeholders.",
          "crypto/tls (client as generator, server as reference) of the toolchain in use; caddytls' own sni matcher and the module's alpn matcher evaluated on the reference info; parseRawClientHello reached through an overlay export shim.",
          "property-based testing (rapid); differential oracle (crypto/tls server)"),
+ "C15": ("Grammar-based generation of configurations with two independent printers (Caddyfile text, expected JSON) compared through the real caddyfile adapter; determinism of adapting, provisioning of the adapted JSON and the JSON load/serialise round trip are checked on the same configurations.",
+         "Caddy's caddyfile adapter and httpcaddyfile global-option machinery; the expected JSON printer encodes the documented meaning of each option (an error there shows up as a false alarm, not as a missed defect).",
+         "property-based testing (rapid) with a grammar-based generator; differential between two printers + round trip"),
 }
 NOT_YET = "check not built yet in this session (planned, see DESIGN.md); not claimed until it is"
 
